@@ -318,6 +318,10 @@ static spif_obj_t make_tok(void)
     t = spif_tok_new_from_ptr((spif_charptr_t) src); vh_op("tok_new_from_ptr(%s) variant %d", vh_qs(src), v);
     if (!t) return NULL;
     if (v >= 2 && vh_coin(40)) spif_tok_set_sep(t, spif_str_new_from_ptr((spif_charptr_t) ":"));
+    /* quote, double quote and escape characters other than the defaults are part of the value too */
+    if (vh_coin(15)) { spif_tok_set_quote(t, '`'); vh_count("tok_quote_changed", 1); }
+    if (vh_coin(15)) { spif_tok_set_dquote(t, '|'); vh_count("tok_dquote_changed", 1); }
+    if (vh_coin(15)) { spif_tok_set_escape(t, '^'); vh_count("tok_escape_changed", 1); }
     if (v >= 2) spif_tok_eval(t);                                  /* evaluated */
     if (v >= 4) { spif_tok_set_src(t, spif_str_new_from_ptr((spif_charptr_t) SRC[vh_below(7)])); spif_tok_eval(t); }   /* re-evaluated */
     return (spif_obj_t) t;
